@@ -123,16 +123,6 @@ class World:
                 [[k[0], k[1]] for k in self.kills], self.fd_closes]
 
 
-def _awaited(sp, pexpect):
-    """the awaited form of expect on the object"""
-    import asyncio
-    loop = asyncio.new_event_loop()
-    try:
-        return loop.run_until_complete(sp.expect_exact([b'x', pexpect.EOF, pexpect.TIMEOUT], timeout=0, async_=True))
-    finally:
-        loop.close()
-
-
 def run_ops(pexpect, ign_hup, ign_int, stopped, ops):
     import ptyprocess.ptyprocess as pp
     import pexpect.pty_spawn as ps
@@ -165,7 +155,7 @@ def run_ops(pexpect, ign_hup, ign_int, stopped, ops):
                 elif o[0] == 'io':
                     # any I/O call on an object whose close() has been called: it must fail with an error (not return, not EOF/TIMEOUT)
                     fn = {0: lambda: w.sp.read_nonblocking(1, 0), 1: lambda: w.sp.send(b'x'), 2: lambda: w.sp.expect_exact([b'x', pexpect.EOF, pexpect.TIMEOUT], timeout=0),
-                          3: lambda: w.sp.sendline(b''), 4: lambda: w.sp.readline(), 5: lambda: _awaited(w.sp, pexpect)}[o[1]]
+                          3: lambda: w.sp.sendline(b''), 4: lambda: w.sp.readline()}[o[1]]
                     try:
                         v = fn()
                         r = [9, 'returned %r' % (v,)]
@@ -208,7 +198,7 @@ def gen_ops(rng, n, foreign_reaper=False):
         elif x < 0.78:
             # I/O on the object: only after a close() (what it does on an open object belongs to C06-C08)
             if any(o[0] == 'close' for o in ops):
-                ops.append(('io', rng.randint(0, 5)))
+                ops.append(('io', rng.randint(0, 4)))
             else:
                 ops.append(('isalive',))
         elif x < 0.9:
